@@ -33,7 +33,7 @@ func Claimed() []string {
 
 func init() {
 	prop(&PropInfo{ID: "C05", Level: "other",
-		Explanation: "Decides structural necessary conditions of value coherence for all call sites of the 42 workspace packages: (VAL-IDENTITY) no Go identity (==, !=, switch, map key) is ever applied to a type containing the pointer-represented tla.Value; (PURE-UNUSED) no persistent-collection / clock update result is discarded; plus the gob and hashing shape rules listed under 'rules'. Every obligation is a (rule, construct) pair found in the current source.",
+		Explanation: "Decides structural necessary conditions of value coherence for all call sites of the 42 workspace packages: (VAL-IDENTITY) no Go identity (==, !=, switch, map key) is ever applied to a type containing the pointer-represented tla.Value; (PURE-UNUSED) no persistent-collection / clock update result is discarded; plus the gob and hashing shape rules listed under 'rules'. Every obligation is a (rule, construct) pair found in the current source. GOB-WHOLE: a hand-written GobEncode ships the whole value.",
 		NotDecided:  "that Equal is an equivalence and Hash respects it on all values (algebra over run-time values); that String() re-parses; gob round-trip equality beyond the encode/decode shape agreement.",
 		Assumptions: commonAssumptions})
 	prop(&PropInfo{ID: "C11", Level: "other",
@@ -41,7 +41,7 @@ func init() {
 		NotDecided:  "agreement, single winner per version and progress under all message schedules (history properties); unsynchronised reads in Commit().",
 		Assumptions: commonAssumptions})
 	prop(&PropInfo{ID: "C12", Level: "other",
-		Explanation: "Decides shape-level necessary conditions of the CRDT semilattice laws: (PURE-UNUSED) no update of a persistent map/list or clock computed in Merge/Write is discarded (a discarded Set in Merge loses the peer's state, so merge is not an upper bound); further MERGE-* rules are listed under 'rules'; (OPERAND-TRAVERSED) binary operations look at every component of every operand; (WRITE-UNCOND) set writes are recorded unconditionally; (GOB-FRESH) decode loops use a fresh destination.",
+		Explanation: "Decides shape-level necessary conditions of the CRDT semilattice laws: (PURE-UNUSED) no update of a persistent map/list or clock computed in Merge/Write is discarded (a discarded Set in Merge loses the peer's state, so merge is not an upper bound); further MERGE-* rules are listed under 'rules'; (OPERAND-TRAVERSED) binary operations look at every component of every operand; (WRITE-UNCOND) set writes are recorded unconditionally; (GOB-FRESH) decode loops use a fresh destination. CRDT-DECISION (decision table of the value types) and GOB-WHOLE (nothing is filtered out of the wire form).",
 		NotDecided:  "commutativity / associativity / idempotence of Merge on all reachable states and the declared read semantics (algebra over values).",
 		Assumptions: commonAssumptions})
 	prop(&PropInfo{ID: "C03", Level: "other",
@@ -52,7 +52,7 @@ func init() {
 
 func init() {
 	prop(&PropInfo{ID: "C01", Level: "other",
-		Explanation: "Decides the structural transaction protocol that makes critical sections atomic, for every ArchetypeResource implementation of the workspace (enumerated by types.Implements) and for the driver in distsys: who may call lifecycle methods (RES-OWNER), that every field written during a section is written by Abort and snapshot fields are maintained (RES-RESTORE), that wrappers and map resources forward and track dirty children (RES-FORWARD), that observable sinks are reachable only from Commit (RES-PUBLISH), the ordering obligations of Run/commit/abort and Read/Write on their control-flow graphs (CS-ORDER, CS-DIRTY), that the abort/done sentinels are never wrapped (ERR-SENTINEL) and that critical-section code never re-binds a live resource cell (RES-NOREBIND); that the error of every section-time operation stops the operation (ERR-PROPAGATE) and a failed I/O step never falls through to the success path inside a resource (IO-ERR); that forwarding resources and the driver keep and drain every channel a resource returns, never overwriting a refused pre-commit (RES-JOIN, CS-ORDER join clauses).",
+		Explanation: "Decides the structural transaction protocol that makes critical sections atomic, for every ArchetypeResource implementation of the workspace (enumerated by types.Implements) and for the driver in distsys: who may call lifecycle methods (RES-OWNER), that every field written during a section is written by Abort and snapshot fields are maintained (RES-RESTORE), that wrappers and map resources forward and track dirty children (RES-FORWARD), that observable sinks are reachable only from Commit (RES-PUBLISH), the ordering obligations of Run/commit/abort and Read/Write on their control-flow graphs (CS-ORDER, CS-DIRTY), that the abort/done sentinels are never wrapped (ERR-SENTINEL) and that critical-section code never re-binds a live resource cell (RES-NOREBIND); that the error of every section-time operation stops the operation (ERR-PROPAGATE) and a failed I/O step never falls through to the success path inside a resource (IO-ERR); that forwarding resources and the driver keep and drain every channel a resource returns, never overwriting a refused pre-commit (RES-JOIN, CS-ORDER join clauses). Also: decision tables of the file element / persistent wrapper (STORE-DECISION), of the persistent log (PLOG-DECISION) and of local variables (LOCAL-RES); a failed wire operation ends the mailbox sender's connection (MB-CONN-DROP); OutputChan forgets what it sent (CH-DEFER); the CRDT merger folds only received state into the rollback snapshot (CRDT-SNAPSHOT); the hashmap lists every key (HASHMAP-KEYS); 2PC replies carry committed values only (TPC-COMMITTED-ONLY).",
 		NotDecided:  "that each Abort restores the right value (only that it writes the field); socket-level delivery; timeouts; interaction of two contexts; the equality 'state after a failed attempt = state before' as a run-time fact.",
 		Assumptions: commonAssumptions})
 }
@@ -73,28 +73,28 @@ func init() {
 
 func init() {
 	prop(&PropInfo{ID: "C06", Level: "other",
-		Explanation: "Decides the structural clauses that make mailboxes and channel resources transactional FIFO links, on the control-flow graphs of every reader/writer type: the TCP receiver publishes a connection's buffer only on the commit tag after a successful ack, as one record, and resets it on begin and after publishing (MB-PUBLISH); Abort puts in-progress reads back in front of the backlog and both Abort and Commit clear them (MB-REDELIVER); ReadValue serves the backlog before the channel and records every returned message (MB-BACKLOGFIRST); the tag protocol is exhaustive and Begin/PreCommit/Commit are conditioned on the section flag (MB-TAGS); the resend buffer mirrors what was sent (MB-RESEND); OutputChan buffers until Commit and its asynchronous commit is joined (CH-DEFER, ASYNC-JOIN); the reported length counts pending messages only (MB-LEN); plus RES-RESTORE / RES-PUBLISH instances for these types.",
+		Explanation: "Decides the structural clauses that make mailboxes and channel resources transactional FIFO links, on the control-flow graphs of every reader/writer type: the TCP receiver publishes a connection's buffer only on the commit tag after a successful ack, as one record, and resets it on begin and after publishing (MB-PUBLISH); Abort puts in-progress reads back in front of the backlog and both Abort and Commit clear them (MB-REDELIVER); ReadValue serves the backlog before the channel and records every returned message (MB-BACKLOGFIRST); the tag protocol is exhaustive and Begin/PreCommit/Commit are conditioned on the section flag (MB-TAGS); the resend buffer mirrors what was sent (MB-RESEND); OutputChan buffers until Commit and its asynchronous commit is joined (CH-DEFER, ASYNC-JOIN); the reported length counts pending messages only (MB-LEN); plus RES-RESTORE / RES-PUBLISH instances for these types. Also MB-DECISION, MB-CONN-DROP (a failed exchange ends the connection), ONESHOT-FRESH, DEADLINE-SCOPED, CH-DEFER forgets-sent-values.",
 		NotDecided:  "order/loss/duplication over all interleavings as a history property; per-sender order across reconnects; duplication on lost commit acks (excluded by 'absent connection failure'); timing.",
 		Assumptions: commonAssumptions})
 }
 
 func init() {
 	prop(&PropInfo{ID: "C17", Level: "other",
-		Explanation: "Decides the lifecycle protocol of MPCalContext on the control-flow graphs of Run, Stop and the nested-context adapter: the exit request is sent at most once (under the lock, flag tested and set on the same path, capacity 1) so Stop cannot block holding the lock Run's epilogue needs (STOP-ONCE); awaitExit is closed only under the lock and only once (CLOSE-ONCE: non-blocking-receive guard, or Run's epilogue, which is registered only for a context that never ran and was not stopped); every path of Stop waits for awaitExit outside the lock (STOP-WAITS); every loop iteration polls requestExit before BeginEvent/Body/commit (EXIT-POLL); cleanupResources closes every resource, exactly from the epilogue, errors merged (CLEANUP-ALL, RES-OWNER, RES-FORWARD for map elements); nested contexts report exactly once and are collected (NESTED-COUNT). The hashmap behind the map resources lists every key it stores, so Close reaches every element (HASHMAP-KEYS).",
+		Explanation: "Decides the lifecycle protocol of MPCalContext on the control-flow graphs of Run, Stop and the nested-context adapter: the exit request is sent at most once (under the lock, flag tested and set on the same path, capacity 1) so Stop cannot block holding the lock Run's epilogue needs (STOP-ONCE); awaitExit is closed only under the lock and only once (CLOSE-ONCE: non-blocking-receive guard, or Run's epilogue, which is registered only for a context that never ran and was not stopped); every path of Stop waits for awaitExit outside the lock (STOP-WAITS); every loop iteration polls requestExit before BeginEvent/Body/commit (EXIT-POLL); cleanupResources closes every resource, exactly from the epilogue, errors merged (CLEANUP-ALL, RES-OWNER, RES-FORWARD for map elements); nested contexts report exactly once and are collected (NESTED-COUNT). The hashmap behind the map resources lists every key it stores, so Close reaches every element (HASHMAP-KEYS). RUN-OUTCOME: the runtime's wrappers hand on what Run returned. CLOSE-BOUNDED: Close waits on no counter that only protocol messages reset. No call runs between Run's gate and the registration of its epilogue.",
 		NotDecided:  "exactly-once Close when the same object is bound under two handles; duration bounds of cleanup; behaviour of a second Run after the first finished beyond the panic gate.",
 		Assumptions: commonAssumptions})
 }
 
 func init() {
 	prop(&PropInfo{ID: "C13", Level: "other",
-		Explanation: "Decides structural necessary conditions of 'every committed update is delivered, in-flight updates are never broadcast, aborted updates disappear, peer state is never lost' on crdt.go: every state sent to a peer is getStableValue(), which returns the snapshot exactly while a section writes, under the lock (CRDT-STABLE); the merger updates the snapshot too, so Abort cannot discard merged peer state (CRDT-SNAPSHOT); the broadcast budget is armed in Commit (CRDT-ARM); every received state is queued and only the merger drains the queue (CRDT-ENQUEUE); Abort restores every field the section operations write (RES-RESTORE).",
+		Explanation: "Decides structural necessary conditions of 'every committed update is delivered, in-flight updates are never broadcast, aborted updates disappear, peer state is never lost' on crdt.go: every state sent to a peer is getStableValue(), which returns the snapshot exactly while a section writes, under the lock (CRDT-STABLE); the merger updates the snapshot too, so Abort cannot discard merged peer state (CRDT-SNAPSHOT); the broadcast budget is armed in Commit (CRDT-ARM); every received state is queued and only the merger drains the queue (CRDT-ENQUEUE); Abort restores every field the section operations write (RES-RESTORE). The merge rules of the value types (MERGE-COMPONENT, MERGE-MONO, OPERAND-TRAVERSED, CRDT-DECISION, GOB-WHOLE) are decided here too; every broadcast call has its own deadline (ONESHOT-FRESH); the snapshot is merged with the received state only.",
 		NotDecided:  "eventual delivery and convergence (liveness over schedules and timing); peers that join late; the CRDT value algebra (C12).",
 		Assumptions: commonAssumptions})
 }
 
 func init() {
 	prop(&PropInfo{ID: "C19", Level: "other",
-		Explanation: "Decides the structural clauses of failure-detector completeness and settling on the control-flow graphs of fd.go: RunArchetype stores alive before Run, finished/failed on every normal exit according to Run's error and failed on every path after a recovered panic (FD-EXITSTATE); every poll iteration of mainLoop stores a state, the three failure successors store the constant failed, a reply is stored only without error and timeout, ErrShutdown forces a re-dial, reply variable and completion channel are per-poll (FD-FAILBRANCH); ReadValue writes nothing, cannot wait longer than one Sleep(pullInterval), and maps uninitialized->abort, alive->FALSE, everything else->TRUE (FD-READ). The state locks of the detector and the monitor are held across field accesses only, so a read never waits for a dial or RPC (FD-LOCK-SHORT); the plumbing clauses of FD-WIRING.",
+		Explanation: "Decides the structural clauses of failure-detector completeness and settling on the control-flow graphs of fd.go: RunArchetype stores alive before Run, finished/failed on every normal exit according to Run's error and failed on every path after a recovered panic (FD-EXITSTATE); every poll iteration of mainLoop stores a state, the three failure successors store the constant failed, a reply is stored only without error and timeout, ErrShutdown forces a re-dial, reply variable and completion channel are per-poll (FD-FAILBRANCH); ReadValue writes nothing, cannot wait longer than one Sleep(pullInterval), and maps uninitialized->abort, alive->FALSE, everything else->TRUE (FD-READ). The state locks of the detector and the monitor are held across field accesses only, so a read never waits for a dial or RPC (FD-LOCK-SHORT); the plumbing clauses of FD-WIRING. DEADLINE-SCOPED: no absolute deadline is left on a served connection; the rpc.ErrShutdown test is made for every RPC error; ONESHOT-FRESH.",
 		NotDecided:  "the bound 'within k polling intervals', reachability of monitors, ordering of start events - timing and network behaviour.",
 		Assumptions: commonAssumptions})
 }
